@@ -686,3 +686,77 @@ func TestC17HandlerFormat(t *testing.T) {
 		c.Done()
 	})
 }
+
+// TestC17Queries: the identifiers the chain reports are the published derivations, for every bridge
+// and whatever the other bridges hold: after each of a series of deposits into several bridges, for
+// every (bridge, denom) pair Query/TokenPairByL1Denom must name ref.L2Denom, Query/TokenPairByL2Denom
+// must map it back exactly when that bridge has seen a deposit of the denom, and Query/TokenPairs must
+// list exactly those pairs.
+func TestC17Queries(t *testing.T) {
+	rec := evid.For("C17")
+	runRapid(t, 150, 2500, func(rt *rapid.T) {
+		c := rec.Begin()
+		c.Class("queries")
+		e := henv.NewL1(henv.L1Options{NoHook: true})
+		u := henv.MakeUser("c17q")
+		denoms := []string{"uinit", "uusdc", "ibc/27394FB092D2ECCD56123C74F36E4C1F926001CEADA9CA97EA622B25F41E5EB2", "uINIT"}
+		for _, d := range denoms {
+			e.Fund(u.Addr, coinOf(d, 1_000_000))
+		}
+		nb := rapid.IntRange(2, 4).Draw(rt, "bridges")
+		for i := 0; i < nb; i++ {
+			if r := e.Deliver(ophosttypes.NewMsgCreateBridge(u.Str, henv.DefaultBridgeConfig(u.Str, u.Str, time.Minute))); !r.OK() {
+				panic(r.Err)
+			}
+		}
+		seen := map[string]bool{}
+		shared := false
+		repeatSteps(rt, 12, func(i int) {
+			b := uint64(rapid.IntRange(1, nb).Draw(rt, "bridge"))
+			d := rapid.SampledFrom(denoms).Draw(rt, "denom")
+			if r := e.Deliver(ophosttypes.NewMsgInitiateTokenDeposit(u.Str, b, "l2-recipient", coinOf(d, int64(rapid.IntRange(0, 9).Draw(rt, "amt"))), nil)); !r.OK() {
+				rt.Fatalf("setup: deposit refused: %v", r.Err)
+			}
+			seen[fmt.Sprintf("%d/%s", b, d)] = true
+			for ob := uint64(1); ob <= uint64(nb); ob++ {
+				if ob != b && seen[fmt.Sprintf("%d/%s", ob, d)] {
+					shared = true
+				}
+			}
+			for qb := uint64(1); qb <= uint64(nb); qb++ {
+				want := 0
+				for _, qd := range denoms {
+					l2 := ref.L2Denom(qb, qd)
+					r1, err := e.Q.TokenPairByL1Denom(e.Ctx, &ophosttypes.QueryTokenPairByL1DenomRequest{BridgeId: qb, L1Denom: qd})
+					if err != nil || r1.TokenPair.L2Denom != l2 || r1.TokenPair.L1Denom != qd {
+						rt.Fatalf("C17 violated: Query/TokenPairByL1Denom(bridge %d, %s) = %v (err %v), the published derivation gives %s", qb, qd, r1.GetTokenPair(), err, l2)
+					}
+					r2, err := e.Q.TokenPairByL2Denom(e.Ctx, &ophosttypes.QueryTokenPairByL2DenomRequest{BridgeId: qb, L2Denom: l2})
+					if seen[fmt.Sprintf("%d/%s", qb, qd)] {
+						want++
+						if err != nil || r2.TokenPair.L1Denom != qd {
+							rt.Fatalf("C17 violated: Query/TokenPairByL2Denom(bridge %d, %s) = %v (err %v), bridge %d has seen a deposit of %s", qb, l2, r2.GetTokenPair(), err, qb, qd)
+						}
+					} else if err == nil {
+						rt.Fatalf("C17 violated: Query/TokenPairByL2Denom(bridge %d, %s) = %v although bridge %d never saw a deposit of %s", qb, l2, r2.GetTokenPair(), qb, qd)
+					}
+				}
+				tp, err := e.Q.TokenPairs(e.Ctx, &ophosttypes.QueryTokenPairsRequest{BridgeId: qb})
+				if err != nil || len(tp.TokenPairs) != want {
+					rt.Fatalf("C17 violated: Query/TokenPairs(bridge %d) lists %d pairs (err %v), the bridge has seen %d denoms", qb, len(tp.GetTokenPairs()), err, want)
+				}
+				for _, pr := range tp.TokenPairs {
+					if pr.L2Denom != ref.L2Denom(qb, pr.L1Denom) {
+						rt.Fatalf("C17 violated: Query/TokenPairs(bridge %d) pairs %s with %s, the derivation gives %s", qb, pr.L1Denom, pr.L2Denom, ref.L2Denom(qb, pr.L1Denom))
+					}
+				}
+			}
+		})
+		if shared {
+			c.NonTrivial()
+			c.Class("queries/denom-deposited-into-two-bridges")
+			c.Shape(fmt.Sprintf("queries/%d/%d", nb, len(seen)))
+		}
+		c.Done()
+	})
+}
